@@ -142,12 +142,43 @@ def step(ctx, w, script):
                     ref[k] = v
                 arg = [(k, w.exprs[v]) for k, v in kvs]
                 if op == "update":
-                    if rng.random() < 0.5:
+                    r = rng.random()
+                    if r < 0.4:
                         m.update(arg)
-                    else:
+                    elif r < 0.8:
                         m.update(dict(arg))
+                    else:
+                        # a malformed item after the valid ones: the
+                        # built-in dict inserts the valid prefix and raises
+                        # (ValueError for a 1-tuple, TypeError for an int)
+                        bad, expected = rng.choice(
+                            [((3,), "ValueError"), (5, "TypeError")])
+                        ctx.count("op:update:malformed-item")
+                        got_exc = None
+                        try:
+                            m.update(arg + [bad])
+                        except (ValueError, TypeError) as e:
+                            got_exc = type(e).__name__
+                        if got_exc != expected:
+                            exc = got_exc or "no-exception"
+                            want_exc[0] = expected
+                        # otherwise: the valid prefix took effect (that is
+                        # what the model is shown and what is compared below)
                 else:
-                    w.bis[x].symbolic_expressions = dict(arg)
+                    if rng.random() < 0.3 and w.bis[x] is not w.bis[0]:
+                        # the setter copies: assigning another interval's
+                        # mapping object must not make the two share state
+                        src = w.bis[0].symbolic_expressions
+                        kvs = [(k, w.eidx[id(e)]) for k, e in src.items()]
+                        line = "assign %d%s" % (x, "".join(
+                            " %d:%d" % kv for kv in kvs))
+                        ref.clear()
+                        for k, v in kvs:
+                            ref[k] = v
+                        w.bis[x].symbolic_expressions = src
+                        ctx.count("op:assign:other-mapping")
+                    else:
+                        w.bis[x].symbolic_expressions = dict(arg)
                 ret = want_ret = "-"
             elif op == "clear":
                 line = "clear %d" % x
